@@ -121,7 +121,17 @@ def run_property(pid, tier, seed, progs=None):
     if progs:
         ctx._progs = progs
     mod = importlib.import_module("props." + pid.lower())
-    mod.run(ctx)
+    try:
+        mod.run(ctx)
+    except AnalysisBroken as e:
+        # a later rule could not be evaluated on this tree.  Obligations that were already decided as violated stand on their own:
+        # they are reported (exit 1) together with the note; without any, the run is analysis-broken (exit 2)
+        if not any(o.status == "fail" for o in ctx.obs):
+            raise
+        ctx.obs = [o for o in ctx.obs if o.status is not None]
+        ctx.broken_note = str(e)
+        print("NOTE property=%s analysis incomplete after the violations below: %s" % (pid, e))
+        return ctx, mod
     for o in ctx.obs:
         if o.status is None:
             raise AnalysisBroken("obligation %s/%s left undecided" % (o.rule, o.fn))
